@@ -18,6 +18,7 @@ type vxTemplate struct {
 	edb   []ast.PredicateSym // extensional predicates, filled with symbolic facts in round-robin
 	idb   []ast.PredicateSym
 	rng   int64 // if > 0: fact arguments are assumed in [0, rng)
+	decls []ast.Decl // extra declarations handed to analysis with the rules (descriptors such as fundep/merge)
 	gen   bool  // generated program (zz_vx_gen.go): analysis may reject it when unstratifiable
 	enum  int   // if > 0: fact arguments are case indices 0..enum-1 (concrete), used where mangle's pairing hash (symbolic x symbolic products) defeats the solver
 }
@@ -228,7 +229,7 @@ func vxAnalyze(t vxTemplate) (*analysis.ProgramInfo, error) {
 	for _, p := range t.edb {
 		decls[p] = ast.NewSyntheticDeclFromSym(p)
 	}
-	return analysis.AnalyzeOneUnit(parse.SourceUnit{Clauses: t.rules}, decls)
+	return analysis.AnalyzeOneUnit(parse.SourceUnit{Clauses: t.rules, Decls: t.decls}, decls)
 }
 
 // VxC01Model: real analysis + real semi-naive engine on a store kind vs the reference model.
